@@ -15,6 +15,10 @@ FAMILIES = {
     "abs": ("billion kcals", "thousand tons", "thousand tons"),
     "pct": ("percent people fed", "percent people fed", "percent people fed"),
     "ratio": ("ratio", "ratio", "ratio"),
+    # same calorie label as "abs" but a different protein / fat label: combining them with "abs" must be refused whatever the
+    # fat/protein inclusion flags say (a check that looks at the calorie label only would let them through)
+    "mixp": ("billion kcals", "thousand tons", "million tons"),
+    "mixf": ("billion kcals", "million tons", "thousand tons"),
 }
 REFUSE = "REFUSE"
 
